@@ -502,6 +502,10 @@ class RaftNode(Entity):
         if self._state != RaftState.LEADER:
             return []
 
+        if term < self._current_term:
+            # Answer to a request this node sent in an earlier term: says nothing about its current log
+            return []
+
         if follower is None:
             return []
 
